@@ -59,7 +59,23 @@ var Cfgs = []NetCfg{
 	// netfilter prefix = home prefix (what dhcp4_spoofer.New configures by default)
 	{"h29same", netip.MustParsePrefix("172.16.5.0/29"), netip.MustParseAddr("172.16.5.2"), netip.MustParseAddr("172.16.5.1"),
 		netip.MustParsePrefix("172.16.5.2/29"), netip.MustParseAddr("9.9.9.9")},
+	// variants of h24n29 that differ in ONE SubnetConfig field each: targets of "restart with a changed configuration"
+	{"h24n29-dns", netip.MustParsePrefix("192.168.0.0/24"), netip.MustParseAddr("192.168.0.129"), netip.MustParseAddr("192.168.0.11"),
+		netip.MustParsePrefix("192.168.0.129/29"), netip.MustParseAddr("9.9.9.9")},
+	{"h24n29-nfgw", netip.MustParsePrefix("192.168.0.0/24"), netip.MustParseAddr("192.168.0.129"), netip.MustParseAddr("192.168.0.11"),
+		netip.MustParsePrefix("192.168.0.130/29"), netip.MustParseAddr("8.8.8.8")},
+	{"h24n29-nflen", netip.MustParsePrefix("192.168.0.0/24"), netip.MustParseAddr("192.168.0.129"), netip.MustParseAddr("192.168.0.11"),
+		netip.MustParsePrefix("192.168.0.129/28"), netip.MustParseAddr("8.8.8.8")},
+	{"h24n29-router", netip.MustParsePrefix("192.168.0.0/24"), netip.MustParseAddr("192.168.0.129"), netip.MustParseAddr("192.168.0.12"),
+		netip.MustParsePrefix("192.168.0.129/29"), netip.MustParseAddr("8.8.8.8")},
+	{"h24n29-host", netip.MustParsePrefix("192.168.0.0/24"), netip.MustParseAddr("192.168.0.133"), netip.MustParseAddr("192.168.0.11"),
+		netip.MustParsePrefix("192.168.0.129/29"), netip.MustParseAddr("8.8.8.8")},
+	{"h24n29-homelen", netip.MustParsePrefix("192.168.0.0/23"), netip.MustParseAddr("192.168.0.129"), netip.MustParseAddr("192.168.0.11"),
+		netip.MustParsePrefix("192.168.0.129/29"), netip.MustParseAddr("8.8.8.8")},
 }
+
+// NumBase: the configurations explored exhaustively / randomly; the rest are restart targets only.
+const NumBase = 3
 
 var (
 	sessions = map[int]*packet.Session{}
@@ -130,6 +146,10 @@ type World struct {
 	S      *packet.Session
 	Conn   *sess.RecConn
 	H      *dhcp.Handler
+	File   string // lease file ("" = none)
+	// the ONE receive buffer every frame of this world is received in (what a read loop / buffer pool does);
+	// it is overwritten as soon as ProcessPacket has returned
+	rx []byte
 }
 
 // NewWorld: fresh handler over the (reset) session of configuration i; filename "" = no lease file.
@@ -161,14 +181,15 @@ func NewWorldCaptured(i, mode int, filename string, captured [][]byte, reset boo
 		return nil, err
 	}
 	conn.Take()
-	return &World{CfgIdx: i, Cfg: c, Mode: mode, S: s, Conn: conn, H: h}, nil
+	return &World{CfgIdx: i, Cfg: c, Mode: mode, S: s, Conn: conn, H: h, File: filename, rx: make([]byte, 1514)}, nil
 }
 
 // ---------------------------------------------------------------------------------------------
 // operations (text form = model op syntax + prl field for messages, + harness-only `age`)
 
 type Op struct {
-	Kind   string // discover request decline release tick capture uncapture host nohost age
+	Kind   string // discover request decline release tick capture uncapture host nohost age restart
+	Cfg    int    // restart: configuration the new handler is constructed with (same lease file, fresh session)
 	CHAddr []byte
 	CID    []byte // nil = option absent (empty non-nil = present with length 0)
 	Req    []byte
@@ -229,6 +250,8 @@ func (o *Op) String() string {
 		return fmt.Sprintf("host:%d:%s", o.IP, core.Hex(o.MAC))
 	case o.Kind == "nohost":
 		return fmt.Sprintf("nohost:%d", o.IP)
+	case o.Kind == "restart":
+		return fmt.Sprintf("restart:%d", o.Cfg)
 	}
 	return "?"
 }
@@ -289,6 +312,10 @@ func ParseOp(s string) (*Op, bool) {
 	case f[0] == "nohost" && len(f) == 2:
 		o.IP = num(f[1])
 		return o, true
+	case f[0] == "restart" && len(f) == 2:
+		v, err := strconv.Atoi(f[1])
+		o.Cfg = v
+		return o, err == nil && v >= 0 && v < len(Cfgs)
 	}
 	return nil, false
 }
@@ -319,9 +346,15 @@ func ipChecksum(h []byte) uint16 {
 
 var msgType = map[string]byte{"discover": 1, "request": 3, "decline": 4, "release": 7}
 
-// BuildFrame builds Ethernet/IPv4/UDP/DHCP bytes in a 1514-byte buffer (the server encodes its reply in place).
-func BuildFrame(o *Op) []byte {
-	buf := make([]byte, 1514)
+// BuildFrame builds Ethernet/IPv4/UDP/DHCP bytes in the given 1514-byte receive buffer (the server encodes its
+// reply in place); a nil buffer allocates one.
+func BuildFrame(buf []byte, o *Op) []byte {
+	if buf == nil {
+		buf = make([]byte, 1514)
+	}
+	for i := range buf {
+		buf[i] = 0
+	}
 	d := buf[42:]
 	d[0], d[1], d[2] = 1, 1, 6
 	copy(d[4:8], o.XID)
@@ -546,6 +579,7 @@ type Step struct {
 	Tracked  []byte // MAC the session tracked for the reply address when the message was processed (nil: none)
 	Err      string // panic / dump problem
 	Skipped  bool   // frame not dispatched (Parse refused it)
+	CfgDump  string // configuration dump the step ran under
 	hostsPre map[uint32][]byte
 }
 
@@ -556,14 +590,32 @@ func (w *World) Apply(o *Op) *Step {
 	var frame packet.Frame
 	if isMsg(o.Kind) {
 		var err error
-		frame, err = w.S.Parse(BuildFrame(o))
+		frame, err = w.S.Parse(BuildFrame(w.rx, o))
 		if err != nil || frame.PayloadID != packet.PayloadDHCP4 {
 			st.Skipped = true
 			return st
 		}
 	}
+	if o.Kind == "restart" {
+		// a new process: fresh session state, the handler is constructed from the lease file under configuration o.Cfg
+		st.Skipped = true
+		res := core.Safely(func() string {
+			nw, err := NewWorldCaptured(o.Cfg, w.Mode, w.File, nil, true)
+			if err != nil {
+				return "error constructing the handler: " + err.Error()
+			}
+			nw.rx = w.rx
+			*w = *nw
+			return "ok"
+		})
+		if res != "ok" {
+			st.Err = "restart: " + res
+		}
+		_, st.CfgDump, _ = w.dump()
+		return st
+	}
 	var bad string
-	st.Pre, _, bad = w.dump()
+	st.Pre, st.CfgDump, bad = w.dump()
 	st.ModelOp = o.modelOp(nowH * hour)
 	st.hostsPre = map[uint32][]byte{}
 	for _, a := range w.S.VerifHosts() {
@@ -595,6 +647,10 @@ func (w *World) Apply(o *Op) *Step {
 	})
 	if res != "ok" {
 		st.Err = "panic in " + o.Kind
+	}
+	// the receive loop reuses its buffer: whatever the server kept must not point into it
+	for i := range w.rx {
+		w.rx[i] = 0xee
 	}
 	for _, fr := range w.Conn.Take() {
 		if r, ok := DecodeReply(fr); ok {
@@ -653,6 +709,7 @@ type Ledger struct {
 	heldIP      map[string]uint32
 	ever        map[string]bool // every (address, client id, mac) ever acknowledged
 	claimedEver map[string]bool // every (client id, address) ever offered or acknowledged
+	restarted   bool            // the server was restarted from its lease file under the same configuration
 }
 
 func NewLedger(c *NetCfg, mode int) *Ledger {
@@ -699,6 +756,21 @@ func (l *Ledger) Observe(st *Step) (out []Finding) {
 		out = append(out, Finding{Prop: prop, What: fmt.Sprintf(format, a...), Known: known})
 	}
 	switch o.Kind {
+	case "restart":
+		if st.Err != "" {
+			add("C11", "", "%s", st.Err)
+			add("C12", "", "%s", st.Err)
+		}
+		if &Cfgs[o.Cfg] != l.cfg {
+			// the operator changed the configuration: the server starts a new regime (it resets its table);
+			// from here on every reply is judged against the NEW configuration
+			l.cfg = &Cfgs[o.Cfg]
+			l.acked, l.leaseOf, l.offered = map[uint32]binding{}, map[string]uint32{}, map[string]offerRec{}
+			l.held, l.heldIP, l.ever, l.claimedEver = map[string]binding{}, map[string]uint32{}, map[string]bool{}, map[string]bool{}
+		} else {
+			l.restarted = true // the lease file may resurrect a binding the client gave up since the last save (DECLINE is not persisted)
+		}
+		return
 	case "tick":
 		for ip, b := range l.acked {
 			if b.expiry < o.Hours*hour {
@@ -818,6 +890,9 @@ func (l *Ledger) Observe(st *Step) (out []Finding) {
 			cur, hasLease := l.heldIP[cid]
 			// a lease whose time ran out stays "current" until a minute tick frees it (checks.json assumption; only the
 			// renewing branch of the server looks at the clock itself)
+			if l.restarted && l.ever[fmt.Sprintf("%d/%x/%x", ip, cid, o.CHAddr)] {
+				hasLease, cur = true, ip
+			}
 			if !confirmsOffer && !(hasLease && cur == ip) {
 				add("C12", "", "ACK of %s to %x confirms neither the offer of this transaction nor the current lease", a, cid)
 			}
@@ -868,8 +943,34 @@ type Run struct {
 	Key      string // state key after the history (implementation state + oracles + ledger)
 }
 
+func hasRestart(ops []*Op) bool {
+	for _, o := range ops {
+		if o.Kind == "restart" {
+			return true
+		}
+	}
+	return false
+}
+
+// newHistoryWorld: histories that restart the server run over a lease file in a private temporary directory.
+func newHistoryWorld(cfgIdx, mode int, withFile bool) (w *World, cleanup func(), err error) {
+	cleanup = func() {}
+	file := ""
+	if withFile {
+		dir, derr := os.MkdirTemp("", "verif-c11-")
+		if derr != nil {
+			return nil, cleanup, derr
+		}
+		cleanup = func() { os.RemoveAll(dir) }
+		file = dir + "/leases.yaml"
+	}
+	w, err = NewWorld(cfgIdx, mode, file)
+	return w, cleanup, err
+}
+
 func RunHistory(cfgIdx, mode int, ops []*Op) *Run {
-	w, err := NewWorld(cfgIdx, mode, "")
+	w, cleanup, err := newHistoryWorld(cfgIdx, mode, hasRestart(ops))
+	defer cleanup()
 	if err != nil {
 		return &Run{Findings: []Finding{{Prop: "C11", What: "cannot construct handler: " + err.Error()}}}
 	}
@@ -877,19 +978,39 @@ func RunHistory(cfgIdx, mode int, ops []*Op) *Run {
 	return run
 }
 
+// runner applies ops one at a time, feeding the oracles
+type runner struct {
+	w   *World
+	led *Ledger
+	run *Run
+}
+
+func newRunner(w *World) *runner {
+	r := &runner{w: w, led: NewLedger(w.Cfg, w.Mode), run: &Run{}}
+	_, r.run.CfgDump, _ = w.dump()
+	return r
+}
+
+func (r *runner) step(o *Op) *Step {
+	st := r.w.Apply(o)
+	r.run.Steps = append(r.run.Steps, st)
+	r.run.Findings = append(r.run.Findings, r.led.Observe(st)...)
+	return st
+}
+
+func (r *runner) finish() *Run {
+	post, _, _ := r.w.dump()
+	r.run.Key = post + "#" + r.led.key()
+	return r.run
+}
+
 // RunOn runs ops on an existing world and returns the run and the ledger the oracles built.
 func RunOn(w *World, ops []*Op) (*Run, *Ledger) {
-	led := NewLedger(w.Cfg, w.Mode)
-	run := &Run{}
-	_, run.CfgDump, _ = w.dump()
+	r := newRunner(w)
 	for _, o := range ops {
-		st := w.Apply(o)
-		run.Steps = append(run.Steps, st)
-		run.Findings = append(run.Findings, led.Observe(st)...)
+		r.step(o)
 	}
-	post, _, _ := w.dump()
-	run.Key = post + "#" + led.key()
-	return run, led
+	return r.finish(), r.led
 }
 
 // Acked returns the acknowledgements in force (address -> client id, mac, expiry on the canonical clock).
@@ -972,16 +1093,23 @@ func mkCase(c *core.Ctx, cfgIdx, mode int, ops []*Op, run *Run, onlyNew bool, cl
 	sb.WriteString(" @ ")
 	sb.WriteString(run.CfgDump)
 	n := 0
+	cur := run.CfgDump
 	for _, st := range run.Steps {
 		if st.Skipped || st.Pre == "" {
 			continue
 		}
 		g := st.group()
+		if st.CfgDump != "" && st.CfgDump != cur {
+			g = "cfg=" + st.CfgDump + " " + g // the server was restarted under another configuration
+		}
 		if onlyNew {
 			if _, dup := seenSteps[g]; dup {
 				continue
 			}
 			seenSteps[g] = struct{}{}
+		}
+		if st.CfgDump != "" {
+			cur = st.CfgDump
 		}
 		sb.WriteString(" ")
 		sb.WriteString(g)
@@ -1309,6 +1437,252 @@ func randomHistory(c *core.Ctx, cfgIdx int, n int) []*Op {
 	return ops
 }
 
+// ---------------------------------------------------------------------------------------------
+// scenario templates: parameterised multi-step skeletons over client roles (A, B, C) and a contested address X.
+// Every abstract step is resolved against what the client has seen so far (its last offer / lease), so the
+// skeletons stay meaningful whatever addresses the server hands out.  They are instantiated over configurations,
+// modes, role assignments and initial capture states, in the written order and in permuted orders, and run
+// deterministically in every tier.
+
+type absOp struct {
+	role int    // 0 = A, 1 = B, 2 = C
+	kind string // D Dr Dx Rs Rx Rw Rn Rb Dc Rl cap uncap nohost hostB age t0 t5 restart
+	arg  int    // restart: target configuration
+}
+
+func (a absOp) resolve(cfgIdx int, roles []int, view []clientView, x uint32) *Op {
+	cfg := &Cfgs[cfgIdx]
+	i := roles[a.role]
+	m := mac(i)
+	v := view[i]
+	pick := func(vs ...uint32) uint32 {
+		for _, e := range vs {
+			if e != 0 {
+				return e
+			}
+		}
+		return x
+	}
+	host := ip4(u32(cfg.Host))
+	msg := func(kind string, k int) *Op { return &Op{Kind: kind, CHAddr: m, XID: xid(i, k), PRL: []byte{1, 3, 6}} }
+	switch a.kind {
+	case "D":
+		return msg("discover", 1)
+	case "Dr":
+		o := msg("discover", 1)
+		o.Req = ip4(x)
+		return o
+	case "Dx": // a new transaction
+		return msg("discover", 2)
+	case "Rs":
+		o := msg("request", 1)
+		o.Srv, o.Req = host, ip4(pick(v.offer, v.lease))
+		return o
+	case "Rx": // selecting REQUEST of another transaction for the offered address
+		o := msg("request", 3)
+		o.Srv, o.Req = host, ip4(pick(v.offer, v.lease))
+		return o
+	case "Rw":
+		o := msg("request", 1)
+		o.Srv, o.Req = ip4(u32(cfg.Router)), ip4(pick(v.offer, v.lease))
+		return o
+	case "Rn":
+		o := msg("request", 1)
+		o.CIAddr = pick(v.lease, v.offer)
+		o.Src = o.CIAddr
+		return o
+	case "Rb":
+		o := msg("request", 1)
+		o.Req = ip4(pick(v.lease, v.offer))
+		return o
+	case "Dc":
+		o := msg("decline", 1)
+		o.Srv, o.Req = host, ip4(pick(v.lease, v.offer))
+		return o
+	case "Rl":
+		o := msg("release", 1)
+		o.Srv, o.CIAddr = host, pick(v.lease, v.offer)
+		return o
+	case "cap":
+		return &Op{Kind: "capture", MAC: m}
+	case "uncap":
+		return &Op{Kind: "uncapture", MAC: m}
+	case "nohost":
+		return &Op{Kind: "nohost", IP: pick(v.lease, v.offer)}
+	case "age":
+		return &Op{Kind: "age", CID: m, Hours: 9}
+	case "t0":
+		return &Op{Kind: "tick", Hours: 1000}
+	case "t5":
+		return &Op{Kind: "tick", Hours: 1005}
+	case "restart":
+		return &Op{Kind: "restart", Cfg: a.arg}
+	}
+	panic("unknown abstract op " + a.kind)
+}
+
+func parseSkeleton(s string) []absOp {
+	var out []absOp
+	for _, t := range strings.Fields(s) {
+		p := strings.SplitN(t, ".", 2)
+		role := map[string]int{"A": 0, "B": 1, "C": 2, "-": 0}[p[0]]
+		out = append(out, absOp{role: role, kind: p[1]})
+	}
+	return out
+}
+
+// skeletons: "<role>.<kind>"; "-" for steps without a client
+var skeletons = []string{
+	// a pending offer outlives its lease entry (minute tick) while another client takes the address
+	"A.Dr -.t0 B.Dr B.Rs A.D A.Rs",
+	// an expired lease is taken over, the old holder comes back
+	"A.Dr A.Rs -.t5 B.Dr B.Rs A.Rs A.Rn A.D",
+	"A.Dr A.Rs A.age B.Dr A.Rn A.D B.Rs",
+	// two clients are offered the same address
+	"A.Dr B.Dr A.Rs B.Rs B.D B.Rs",
+	// the holder gives the address up (decline / other server / release), another client takes it
+	"A.Dr A.Rs A.Dc B.Dr B.Rs A.Rn A.Rs",
+	"A.Dr A.Rs A.Rw B.Dr B.Rs A.Rs",
+	"A.Dr A.Rs A.Rl B.Dr B.Rs A.Rn",
+	// the session forgets the holder's address
+	"A.Dr A.Rs A.nohost B.Dr B.Rs A.Rn",
+	// capture toggles between the messages of one client
+	"A.D A.Rs A.cap A.Rn A.D A.Rs A.uncap A.Rn A.D",
+	"A.D A.cap A.Rs A.D A.uncap A.Rs",
+	// transaction ids: a REQUEST of another transaction, a second DISCOVER, the first transaction's REQUEST
+	"A.D A.Rx A.Rs",
+	"A.D A.Dx A.Rs A.Rx B.D B.Rx",
+	"A.Dr A.Rs A.Rx A.Rb A.Rn",
+}
+
+// restart skeleton: two clients hold leases (B captured), the server restarts under configuration %d, every
+// client renews, re-discovers and a newcomer joins
+const restartSkeleton = "A.D A.Rs B.cap B.D B.Rs -.restart B.cap A.Rn A.D A.Rs B.Rn B.D B.Rs C.D C.Rs C.Rn"
+
+func permutations(n int, limit int) [][]int {
+	var out [][]int
+	idx := make([]int, n)
+	for i := range idx {
+		idx[i] = i
+	}
+	var rec func(k int)
+	rec = func(k int) {
+		if len(out) >= limit {
+			return
+		}
+		if k == n {
+			out = append(out, append([]int{}, idx...))
+			return
+		}
+		for i := k; i < n; i++ {
+			idx[k], idx[i] = idx[i], idx[k]
+			rec(k + 1)
+			idx[k], idx[i] = idx[i], idx[k]
+		}
+	}
+	rec(0)
+	return out
+}
+
+// runScenario instantiates the abstract steps one by one against the running server.
+func runScenario(cfgIdx, mode int, abs []absOp, roles []int, captured []int, x uint32) ([]*Op, *Run) {
+	withFile := false
+	for _, a := range abs {
+		withFile = withFile || a.kind == "restart"
+	}
+	w, cleanup, err := newHistoryWorld(cfgIdx, mode, withFile)
+	defer cleanup()
+	if err != nil {
+		return nil, &Run{Findings: []Finding{{Prop: "C11", What: "cannot construct handler: " + err.Error()}}}
+	}
+	r := newRunner(w)
+	var ops []*Op
+	view := make([]clientView, 4)
+	do := func(o *Op) {
+		ops = append(ops, o)
+		st := r.step(o)
+		for _, rp := range st.Replies {
+			for j := range view {
+				if bytes.Equal(rp.CHAddr, mac(j)) {
+					if rp.Type == 2 {
+						view[j].offer = rp.YIAddr
+					}
+					if rp.Type == 5 {
+						view[j].lease = rp.YIAddr
+					}
+				}
+			}
+		}
+	}
+	for _, i := range captured {
+		do(&Op{Kind: "capture", MAC: mac(i)})
+	}
+	for _, a := range abs {
+		do(a.resolve(w.CfgIdx, roles, view, x))
+	}
+	return ops, r.finish()
+}
+
+func scenarios(c *core.Ctx) {
+	n := 0
+	emit := func(cfgIdx, mode int, abs []absOp, roles []int, captured []int, x uint32) {
+		ops, run := runScenario(cfgIdx, mode, abs, roles, captured, x)
+		c.Add(*mkCase(c, cfgIdx, mode, ops, run, true, "scenario"))
+		n++
+	}
+	for si, sk := range skeletons {
+		abs := parseSkeleton(sk)
+		for cfgIdx := 0; cfgIdx < NumBase; cfgIdx++ {
+			cfg := &Cfgs[cfgIdx]
+			nf := u32(cfg.Netfilter.Masked().Addr())
+			home := u32(cfg.Home.Masked().Addr())
+			for mode := 1; mode <= 3; mode++ {
+				for _, roles := range [][]int{{0, 1, 2}, {1, 0, 2}, {2, 1, 0}} {
+					// contested address: a netfilter pool address when the clients start captured, a home address otherwise
+					emit(cfgIdx, mode, abs, roles, nil, home+3)
+					emit(cfgIdx, mode, abs, roles, nil, nf+2)
+					emit(cfgIdx, mode, abs, roles, []int{roles[0], roles[1]}, nf+3)
+					emit(cfgIdx, mode, abs, roles, []int{roles[1]}, nf+2)
+				}
+			}
+			// permuted orders of the skeleton (all of them up to 6 steps, a deterministic subset beyond)
+			perms := permutations(len(abs), c.Scale(720, 5040))
+			mode := 1 + (si+cfgIdx)%3
+			for pi, p := range perms {
+				if pi == 0 {
+					continue
+				}
+				q := make([]absOp, len(abs))
+				for k, j := range p {
+					q[k] = abs[j]
+				}
+				if cfgIdx == 0 {
+					emit(cfgIdx, mode, q, []int{0, 1, 2}, nil, home+3)
+				} else {
+					emit(cfgIdx, mode, q, []int{0, 1, 2}, []int{0, 1}, nf+3)
+				}
+			}
+		}
+	}
+	// restart with an unchanged and with a changed configuration (one SubnetConfig field at a time)
+	for target := 0; target < len(Cfgs); target++ {
+		if target != 0 && target < NumBase {
+			continue
+		}
+		abs := parseSkeleton(restartSkeleton)
+		for k := range abs {
+			if abs[k].kind == "restart" {
+				abs[k].arg = target
+			}
+		}
+		for mode := 1; mode <= 3; mode++ {
+			emit(0, mode, abs, []int{0, 1, 2}, nil, u32(Cfgs[0].Home.Masked().Addr())+3)
+			emit(0, mode, abs, []int{1, 2, 0}, nil, u32(Cfgs[0].Home.Masked().Addr())+3)
+		}
+	}
+	c.Res.Extra["scenario_histories"] = n
+}
+
 func Gen(c *core.Ctx) {
 	initOnce()
 	if !c.Verbose {
@@ -1323,7 +1697,8 @@ func Gen(c *core.Ctx) {
 		}
 	}
 	depth := c.Scale(4, 6)
-	for cfgIdx := range Cfgs {
+	scenarios(c)
+	for cfgIdx := 0; cfgIdx < NumBase; cfgIdx++ {
 		for mode := 1; mode <= 3; mode++ {
 			d := depth
 			if cfgIdx != 0 {
@@ -1336,8 +1711,8 @@ func Gen(c *core.Ctx) {
 	}
 	nh := c.Scale(240, 6000)
 	for k := 0; k < nh; k++ {
-		cfgIdx := k % len(Cfgs)
-		mode := 1 + (k/len(Cfgs))%3
+		cfgIdx := k % NumBase
+		mode := 1 + (k/NumBase)%3
 		ops := randomHistory(c, cfgIdx, 10+c.Rnd.Intn(51))
 		run := RunHistory(cfgIdx, mode, ops)
 		c.Add(*mkCase(c, cfgIdx, mode, ops, run, true, "random"))
